@@ -261,14 +261,14 @@ var specTwo = pbt.Register(&pbt.Spec[TwoCase]{
 		case 0:
 			c.Mode, c.Pairs = "nested", rapid.SampledFrom([]int{5000, 20000, 100000}).Draw(t, "pairs")
 		case 1, 2:
-			c.Mode, c.WaitersA, c.ActionUs, c.Reps = "timed", rapid.IntRange(2, 8).Draw(t, "callers"), rapid.SampledFrom([]int{50, 90, 100, 110, 150, 300}).Draw(t, "us"), 60
+			c.Mode, c.WaitersA, c.ActionUs, c.Reps = "timed", rapid.IntRange(2, 8).Draw(t, "callers"), rapid.SampledFrom([]int{50, 90, 100, 110, 150, 300}).Draw(t, "us"), 200
 		default:
 			c.Mode, c.WaitersA, c.WaitersB, c.Reps = "two", rapid.IntRange(1, 6).Draw(t, "wa"), rapid.IntRange(1, 6).Draw(t, "wb"), 8
 			c.AFirst, c.FinishA = rapid.Bool().Draw(t, "afirst"), rapid.Bool().Draw(t, "finisha")
 		}
 		return c
 	},
-	Run: RunTwo, Quick: 60, Thorough: 2000, Crashy: true, Retries: 30,
+	Run: RunTwo, Quick: 90, Thorough: 2000, Crashy: true, Retries: 30,
 })
 
 func TestC17Two(t *testing.T) { pbt.Check(t, specTwo) }
